@@ -196,7 +196,7 @@ NeedSame(ins, j) == j \in ClassTab[ins.cls].same
 RateSure(prog, at) ==           \* every requirement holds whatever is folded
     \A n \in GenIns(prog) : LET ins == prog.ins[n] IN \A j \in 1..Len(ins.a) :
         LET a == OpAttr(ins.a[j], prog.ctl, at) IN
-        /\ NeedAudio(ins, j) => a.lo = 2
+        /\ NeedAudio(ins, j) => (a.lo = 2 \/ (ins.a[j].k = "c" /\ ins.a[j].i = 0 /\ ClassTab[ins.cls].audFrom > 0))
         /\ NeedSame(ins, j) => a.lo = ins.rate /\ a.hi = ins.rate
 \* instructions whose value certainly reaches a unit with a side effect: backwards from those units,
 \* not through a product / madd that may collapse (one factor may be the number zero)
@@ -277,7 +277,7 @@ UnitOK(d, u) ==
     /\ \A j \in 1..Len(un.outs) : un.outs[j] \in 0..3
 \* first failing clause of "the bytes are one complete, consistent version-2 definition called name"
 ScgfWhy(parsed, name) ==
-    IF parsed.ok # 1 THEN "parse:" \o parsed.err
+    IF parsed.ok # 1 THEN "parse:" \o parsed.errc
     ELSE IF parsed.magic # "SCgf" \/ parsed.version # 2 THEN "header"
     ELSE IF parsed.consumed # parsed.total THEN "trailing-bytes"
     ELSE IF parsed.ndefs # 1 \/ Len(parsed.defs) # 1 THEN "def-count"
